@@ -103,6 +103,7 @@ CHOICE_LISTS = (
     ("case", ["Foo", "foo", "FOO", "fOo"]),
     ("five", ["a", "b", "c", "d", "e"]),
     ("negative-looking", ["-1", "a"]),
+    ("punctuated", ["node.js", "c++", "GPL (v3)"]),  # values outside [a-zA-Z0-9_-]: still typed by value
 )
 ATTEMPTS = (None, 1, 2, 3)
 
